@@ -119,7 +119,7 @@ Proof.
   destruct (st_ctx s).
   { inversion H; subst; cbn. destruct s; cbn in *. unfold coreeq; cbn. repeat split; auto; try discriminate;
     try (right; split; [reflexivity|exact I]). }
-  destruct (wait (st_frames s) evs) as [rr|e lost].
+  destruct (wait (st_frames s) wait_quarters evs) as [rr|e lost].
   - destruct (rsess rr);
     try (destruct (rstatus rr =? csm_status_unauthorized);
          [ destruct (ccreds cfg && negb (st_sender s));
@@ -267,7 +267,7 @@ Proof.
   destruct (negb (st_conn (wst w))); [discriminate|].
   destruct (if m =? mTeardown then (w, []) else pop m w) as [w1 evs].
   destruct (st_ctx (wst w)); [discriminate|].
-  destruct (wait (st_frames (wst w)) evs) as [rr|e lost]; [|discriminate].
+  destruct (wait (st_frames (wst w)) wait_quarters evs) as [rr|e lost]; [|discriminate].
   destruct (rsess rr); try discriminate;
     destruct (rstatus rr =? csm_status_unauthorized); try discriminate;
     destruct u; try discriminate;
@@ -1275,7 +1275,7 @@ Proof.
   specialize (P _ _ eq_refl).
   destruct skip; [inversion H; subst; exact P|].
   destruct (st_ctx (wst w)); [inversion H; subst; apply within_upd; exact P|].
-  destruct (wait (st_frames (wst w)) evs) as [rr|e lost]; [|inversion H; subst; apply within_upd; exact P].
+  destruct (wait (st_frames (wst w)) wait_quarters evs) as [rr|e lost]; [|inversion H; subst; apply within_upd; exact P].
   destruct (rsess rr); try (inversion H; subst; exact P);
     (destruct (rstatus rr =? csm_status_unauthorized); [|inversion H; subst; exact P];
      destruct u; [inversion H; subst; exact P|];
